@@ -473,6 +473,7 @@ pub fn run(rep: &'static Report) {
     let seed = rep.seed;
     kra::note(rep);
     rep.set_rule("E-GRID: every sequence of <= 6 (quick) / 7 (thorough) lines over a 15-token alphabet (with/without final newline), every sequence of <= 4 lines over a reduced alphabet with line decorations, the serialize->parse round trip for every name of <= 3 characters over a 9-character alphabet and boundary lengths, and every single-character substitution / checksum perturbation of encoded public keys; each text is parsed by the real parser and compared with REF's reading. distinct non-trivial = texts that REF classifies as well-formed or as unambiguously bad (the others only check 'no crash') + round-trip names + key strings");
+    rep.rule_add("CLI lookup through kestrel decrypt for every sequence of <=2/3 sections x 3 senders and 6 recipient-entry variants; names typed at key generate.");
     rep.assume("the statement gives necessary conditions for acceptance: texts using constructs it leaves open (duplicate fields in a section, fields outside a section, junk lines, no section) are only checked for 'no crash'");
     let al = alphabet(seed);
     rep.mute(!kra::AVAILABLE); // in-process parts count nothing when the seam is unavailable
